@@ -305,10 +305,13 @@ impl Check for C10 {
             .set("sched_seed", J::uint(rng.below(1 << 40)))
     }
     fn execute(&self, j: &J) -> Result<RunOut, String> {
-        match j.get("mode").and_then(|m| m.as_str()) {
-            Some("labels") => exec_e4(j),
-            _ => exec_e3(j),
-        }
+        // executions in which the simulator itself ran out of resources decide nothing
+        let mut out = self.execute_inner(j)?;
+        let before = out.violations.len();
+        out.violations.retain(|v| !(v.class == "pipeline-panicked" && v.detail.contains("SIMULATOR-RESOURCES")));
+        let dropped = (before - out.violations.len()) as u64;
+        out.count("probe.executions_dropped_simulator_out_of_resources", dropped);
+        Ok(out)
     }
     fn shrink(&self, j: &J) -> Vec<J> {
         match j.get("mode").and_then(|m| m.as_str()) {
@@ -403,5 +406,14 @@ impl Check for C10 {
     }
     fn expected_probes(&self) -> Vec<&'static str> {
         vec!["probe.prefix_runs", "probe.executions_with_ge2_active_workers", "probe.reduction_tree_depth_ge2", "probe.cli_group/p1g1", "probe.cli_shape/trimer", "probe.cli_shape/polygon"]
+    }
+}
+
+impl C10 {
+    fn execute_inner(&self, j: &J) -> Result<RunOut, String> {
+        match j.get("mode").and_then(|m| m.as_str()) {
+            Some("labels") => exec_e4(j),
+            _ => exec_e3(j),
+        }
     }
 }
